@@ -98,6 +98,16 @@ theorem find_duplicates_iff (tol : α) (v : List α) (p : Nat) (hp : p < v.lengt
 theorem find_duplicates_length (tol : α) (v : List α) : (findDuplicates tol v).length = v.length := by
   rw [find_duplicates_eq_spec]; simp [dupSpec]
 
+/-- **a larger tolerance flags a superset**: every position flagged with `tol` is flagged with any
+`tol' ≥ tol` (corollary of `find_duplicates_iff`). -/
+theorem find_duplicates_monotone_tol (tol tol' : α) (h : tol ≤ tol') (v : List α) (p : Nat)
+    (hf : (findDuplicates tol v)[p]? = some true) : (findDuplicates tol' v)[p]? = some true := by
+  have hp : p < v.length := by
+    have := (List.getElem?_eq_some_iff.mp hf).1
+    rwa [find_duplicates_length] at this
+  obtain ⟨q, hq, hne, hle⟩ := (find_duplicates_iff tol v p hp).mp hf
+  exact (find_duplicates_iff tol' v p hp).mpr ⟨q, hq, hne, le_trans hle h⟩
+
 /-- a negative tolerance flags nothing -/
 theorem find_duplicates_neg_tol (tol : α) (v : List α) (h : tol < 0) :
     findDuplicates tol v = v.map fun _ => false := by
